@@ -229,6 +229,14 @@ Theorem C09_fuel_copy : forall h r P x np hc, InvExc h r P -> reach h r x ->
 Proof. intros h r P x np hc I. apply (copy_tree_structure_total h r P I). Qed.
 Print Assumptions C09_fuel_copy.
 
+(* link between clause I1 of the Prop-level invariant and the `o_dur = tdur` test of check_spec: on a state satisfying
+   Inv, what every live node REPORTS (the pure reading the observation uses, with the fuel the observation uses) is
+   defined and equals the duration recomputed from leaves and counts *)
+Theorem C09_reported_is_recomputed : forall h r x, Inv h r -> reach h r x ->
+  exists q b nx, peek_dur (S (S (length h))) h x = Some q /\ tbody h x b /\ get h x = Some nx /\ (q == b * rep_of nx)%Q.
+Proof. exact reported_is_recomputed. Qed.
+Print Assumptions C09_reported_is_recomputed.
+
 Theorem C09_history_basic_total : forall ops s,
   sInv s -> forallb basic_op ops = true -> run_ok s ops /\ sInv (run s ops).
 Proof. exact history_basic_total. Qed.
